@@ -109,7 +109,7 @@ class InferScenario:
     """Interprets one function of monkeytype.typing under abstract inputs."""
 
     def __init__(self, repo: Repo, func: str, inline: Tuple[str, ...] = (), all_str: Optional[bool] = None,
-                 any_str: Optional[bool] = None, self_recursion: bool = False, heap: bool = False) -> None:
+                 any_str: Optional[bool] = None, self_recursion: bool = False, heap: bool = True) -> None:
         self.repo = repo
         self.fi = repo.fn(TY, func)
         self.all_str = all_str
@@ -119,9 +119,16 @@ class InferScenario:
         inl = {f"{TY}.{x}" for x in inline}
         if self_recursion:
             inl.add(self.fi.fq)
+        # helper functions that may be introduced next to the anchored ones are interpreted too (the five
+        # inference entry points stay symbolic unless asked for, see call_hook)
+        for f in repo.module(TY).functions.values():
+            if f.cls is None and f.qualname not in ("get_type", "shrink_types", "get_dict_type", "shrink_typed_dict_types", "make_typed_dict", "field_annotations"):
+                inl.add(f.fq)
         self.ri = RepoInterp(repo, self.fi, inline=inl, call_hook=self.call_hook, may_fork=(), heap=heap)
         self.ri.on_subscript = self.on_subscript  # type: ignore[method-assign]
         self.ri.interp.on_subscript = self.on_subscript
+        self.ri.on_attr = self.on_attr  # type: ignore[method-assign]
+        self.ri.interp.on_attr = self.on_attr
         base_name = self.ri.on_name
         def on_name(name: str, st: State) -> Optional[V]:
             v = base_name(name, st)
@@ -142,6 +149,19 @@ class InferScenario:
         self.ri.interp._compare = compare  # type: ignore[method-assign]
 
     # -- hooks -------------------------------------------------------------------
+    def on_attr(self, obj: V, attr: str, node: ast.AST, st: State) -> Optional[V]:
+        if isinstance(obj, R) and obj.kind == "generic":
+            if attr == "__args__":
+                return obj.fields["args"]
+            if attr == "__origin__":
+                return S("origin:" + obj.fields["origin"].v)
+        if isinstance(obj, S) and obj.name.startswith("mod:typing.") and attr == "__origin__":
+            return S("origin:" + obj.name[len("mod:typing."):])
+        if isinstance(obj, (S,)) and attr in ("__args__",):
+            st.pending = st.pending or "AttributeError"
+            return U("no __args__")
+        return RepoInterp.on_attr(self.ri, obj, attr, node, st)
+
     def on_subscript(self, obj: V, key: V, node: ast.AST, st: State) -> Optional[V]:
         if isinstance(obj, S) and obj.name.startswith("mod:typing."):
             origin = obj.name[len("mod:typing."):]
@@ -267,7 +287,22 @@ class InferScenario:
             if name == "is_union" and len(args) == 1:
                 return K(isinstance(args[0], R) and args[0].kind == "generic" and args[0].fields["origin"] == K("Union"))
             if name == "is_generic" and len(args) == 1:
-                return K(isinstance(args[0], R) and args[0].kind == "generic")
+                return K(isinstance(args[0], R) and args[0].kind == "generic" or (isinstance(args[0], S) and args[0].name.startswith("mod:typing.") and args[0] != ANY))
+            if name == "is_generic_of" and len(args) == 2:
+                def org(x: V) -> Optional[str]:
+                    if isinstance(x, R) and x.kind == "generic":
+                        return x.fields["origin"].v
+                    if isinstance(x, S) and x.name.startswith("mod:typing.") and x != ANY:
+                        return x.name[len("mod:typing."):]
+                    return None
+                return K(org(args[0]) is not None and org(args[0]) == org(args[1]))
+            if name in ("name_of_generic", "qualname_of_generic") and len(args) == 1:
+                a0 = args[0]
+                if isinstance(a0, R) and a0.kind == "generic":
+                    return a0.fields["origin"]
+                if isinstance(a0, S) and a0.name.startswith("mod:typing."):
+                    return K(a0.name[len("mod:typing."):])
+                return None
         # RewriteAnonymousTypedDictToDict().rewrite(t)
         if isinstance(call.func, ast.Attribute) and call.func.attr == "rewrite" and isinstance(call.func.value, ast.Call):
             ctor = dotted(call.func.value.func) or ""
@@ -287,9 +322,6 @@ class InferScenario:
             return K(None)
         if o.term[0] != "return":
             return R("raises", what=K(str(o.term[1])))
-        bad = [e for e in o.effects if e[0] in ("KeyError", "IndexError")]
-        if bad:
-            return R("raises", what=K(str(bad[0])))
         return canon(o.freeze(o.term[1]))
 
 
@@ -381,7 +413,8 @@ def shrink_inputs() -> List[Tuple[V, ...]]:
     li, ls, lA, lB = generic("List", i), generic("List", s_), generic("List", A), generic("List", B)
     di = generic("Dict", s_, i)
     tA = generic("Tuple", A)
-    base = [A, B, i, s_, li, ls, lA, lB, di, tA]
+    dE = generic("Dict", ANY, ANY)  # an observed empty dict
+    base = [A, B, i, s_, li, ls, lA, lB, di, tA, dE]
     out: List[Tuple[V, ...]] = [()]
     for n in (1, 2, 3):
         for combo in itertools.combinations_with_replacement(range(len(base)), n):
